@@ -13,6 +13,7 @@
 #include <stdint.h>
 #include "a/vec.h"
 #include "a/buf.h"
+#include "fault.h"
 
 #define MARK 8888888
 #define MAXL 64
@@ -168,6 +169,102 @@ static int same_bag(int const *a, int const *b, int n)
     return !memcmp(ca, cb, sizeof(ca));
 }
 
+#define CALL(vf, bf) (isvec ? vf : bf)
+static long last_reqs, n_fault_runs, n_fault_edges;
+static FILE *fault_out;
+
+static void project_obj(obj *o, int *pnum, int *pmem, int *psiz, int *pseq)
+{
+    *pnum = (int)(o_num(o) > 1000000 ? 1000000 : o_num(o));
+    *pmem = (int)(o_mem(o) > 1000000 ? 1000000 : o_mem(o));
+    *psiz = (int)o_siz(o);
+    int readable = *pnum <= *pmem && *pnum <= MAXL;
+    for (int i = 0; readable && i < *pnum; ++i) { pseq[i] = get_elem(base(o) + (a_size)i * (a_size)*psiz, (a_size)*psiz); }
+    if (!readable) { *pnum = -1; }
+}
+
+/* C07: the same transition under a fault plan: request k fails (single) or every request from k on fails */
+static int fault_edge(edge const *e, long single, long from)
+{
+    obj o;
+    memset(&o, 0, sizeof(o));
+    cur_edge = e;
+    int base_live = f_nlive, base_id = f_nextid;
+    long badfree0 = f_badfree;
+    materialise(&o, e->kind, e->siz, e->mem, e->n, e->seq);
+    void *p = NULL;
+    int rc = 0, rslot = -1, rval = 0;
+    a_size oldnum = (a_size)e->n;
+    a_byte blk[MAXL * 16];
+    a_byte keyobj[16];
+    int isvec = e->kind == 1;
+    a_buf *before = o.b;
+    char live0[256];
+    {
+        size_t w = 0;
+        live0[0] = 0;
+        for (int i = 0; i < f_nlive; ++i)
+        {
+            if (f_live[i].id > base_id && w + 16 < sizeof(live0)) { w += (size_t)snprintf(live0 + w, sizeof(live0) - w, w ? ",%d" : "%d", f_live[i].id); }
+        }
+    }
+    f_begin(single, from);
+#include "seq_ops.inc"
+    f_end();
+    FILE *f = fault_out;
+    int failed = (int)f_failed;
+    int ret_fail;
+    switch (e->op)
+    {
+    case 7: case 9: ret_fail = rc == 4; break;
+    case 10: ret_fail = isvec ? rc == 4 : rc == 4; break;
+    default: ret_fail = p == NULL; break;
+    }
+    (void)before;
+    fprintf(f, "{\"fam\":\"%s\",\"op\":\"%s\",\"a1\":%d,\"a2\":%d,\"plan\":\"%s\",\"k\":%ld,\"failed\":%d,\"pre\":{\"mem\":%d,\"siz\":%d,\"seq\":", isvec ? "vec" : "buf",
+            opname[e->op], e->a1, e->a2, single ? "single" : "from", single ? single : from, failed, e->mem, e->siz);
+    put_seq(f, e->seq, e->n);
+    fputs("},\"live0\":[", f);
+    fputs(live0, f);
+    fputs("],\"reqs\":", f);
+    f_put_log(f);
+    int pnum, pmem, psiz, pseq[MAXL];
+    project_obj(&o, &pnum, &pmem, &psiz, pseq);
+    fprintf(f, ",\"fail\":{\"ret_fail\":%d,\"num\":%d,\"mem\":%d,\"siz\":%d,\"seq\":", ret_fail, pnum, pmem, psiz);
+    put_seq(f, pseq, pnum > 0 ? pnum : 0);
+    /* retry with a healthy allocator */
+    p = NULL; rc = 0;
+    oldnum = o_num(&o);
+    f_begin(0, 0);
+#include "seq_ops.inc"
+    f_end();
+#include "seq_post.inc"
+    int retry_ok;
+    switch (e->op)
+    {
+    case 7: case 9: case 10: retry_ok = rc == 0; break;
+    default: retry_ok = p != NULL; break;
+    }
+    (void)rval;
+    project_obj(&o, &pnum, &pmem, &psiz, pseq);
+    fprintf(f, "},\"retry\":{\"ok\":%d,\"num\":%d,\"mem\":%d,\"seq\":", retry_ok, pnum, pmem);
+    put_seq(f, pseq, pnum > 0 ? pnum : 0);
+    fputs("},\"expected\":", f);
+    put_seq(f, e->seq2, e->n2);
+    destroy(&o);
+    /* ledger: everything obtained since the start of this run must be gone */
+    fputs(",\"leak\":[", f);
+    int first = 1;
+    for (int i = 0; i < f_nlive; ++i)
+    {
+        if (f_live[i].id > base_id) { fprintf(f, first ? "%d" : ",%d", f_live[i].id); first = 0; }
+    }
+    fprintf(f, "],\"badfree\":%ld}\n", f_badfree - badfree0);
+    (void)base_live;
+    ++n_fault_runs;
+    return 0;
+}
+
 static int run_edge(edge const *e, FILE *fo)
 {
     obj o;
@@ -185,95 +282,11 @@ static int run_edge(edge const *e, FILE *fo)
     a_byte blk[MAXL * 16];
     a_byte keyobj[16];
     int isvec = e->kind == 1;
-#define CALL(vf, bf) (isvec ? vf : bf)
-    switch (e->op)
-    {
-    case 1: p = CALL(a_vec_push_back(&o.v), a_buf_push_back(o.b)); break;
-    case 2: p = CALL(a_vec_push_fore(&o.v), a_buf_push_fore(o.b)); break;
-    case 3: p = CALL(a_vec_insert(&o.v, to_size(e->a1)), a_buf_insert(o.b, to_size(e->a1))); break;
-    case 4: p = CALL(a_vec_pull_back(&o.v), a_buf_pull_back(o.b)); break;
-    case 5: p = CALL(a_vec_pull_fore(&o.v), a_buf_pull_fore(o.b)); break;
-    case 6: p = CALL(a_vec_remove(&o.v, to_size(e->a1)), a_buf_remove(o.b, to_size(e->a1))); break;
-    case 7:
-        for (int i = 0; i < e->nblk; ++i) { put_elem(blk + (a_size)i * (a_size)e->siz, (a_size)e->siz, e->blk[i]); }
-        rc = CALL(a_vec_store(&o.v, to_size(e->a1), blk, (a_size)e->nblk, NULL), a_buf_store(o.b, to_size(e->a1), blk, (a_size)e->nblk, NULL));
-        break;
-    case 8: rc = CALL(a_vec_erase(&o.v, to_size(e->a1), to_size(e->a2), NULL), a_buf_erase(o.b, to_size(e->a1), to_size(e->a2), NULL)); break;
-    case 9:
-        if (isvec) { rc = a_vec_setn(&o.v, (a_size)e->a1, NULL); }
-        else { a_buf_setn(o.b, (a_size)e->a1, NULL); }
-        break;
-    case 10:
-        if (isvec) { rc = a_vec_setm(&o.v, (a_size)e->a1); }
-        else
-        {
-            a_buf *nb = a_buf_setm(o.b, (a_size)e->a1);
-            if (nb) { o.b = nb; }
-            else { rc = 4; }
-        }
-        break;
-    case 11:
-        if (isvec) { a_vec_setz(&o.v, (a_size)e->a1, NULL); }
-        else { a_buf_setz(o.b, (a_size)e->a1, NULL); }
-        break;
-    case 12:
-        if (isvec) { a_vec_sort(&o.v, cmp_key); }
-        else { a_buf_sort(o.b, cmp_key); }
-        break;
-    case 13:
-        if (isvec) { a_vec_sort_fore(&o.v, cmp_key); }
-        else { a_buf_sort_fore(o.b, cmp_key); }
-        break;
-    case 14:
-        if (isvec) { a_vec_sort_back(&o.v, cmp_key); }
-        else { a_buf_sort_back(o.b, cmp_key); }
-        break;
-    case 15:
-        put_elem(keyobj, (a_size)e->siz, e->a2);
-        p = CALL(a_vec_push_sort(&o.v, keyobj, cmp_key), a_buf_push_sort(o.b, keyobj, cmp_key));
-        break;
-    case 16:
-        put_elem(keyobj, (a_size)e->siz, e->a1 * 10);
-        p = CALL(a_vec_search(&o.v, keyobj, cmp_key), a_buf_search(o.b, keyobj, cmp_key));
-        break;
-    case 17: p = CALL(a_vec_at(&o.v, to_size(e->a1)), a_buf_at(o.b, to_size(e->a1))); break;
-    case 18: p = CALL(a_vec_of(&o.v, (a_diff)e->a1), a_buf_of(o.b, (a_diff)e->a1)); break;
-    case 19: p = CALL(a_vec_top(&o.v), a_buf_top(o.b)); break;
-    case 20:
-        if (isvec)
-        {
-            a_vec_ctor(&o.v, (a_size)e->a1);
-            p = a_vec_push_back(&o.v);
-            if (p) { put_elem((a_byte *)p, o.v.siz_, e->val); }
-            p = NULL;
-        }
-        else
-        {
-            o.b = a_buf_new((a_size)e->a1, (a_size)e->a2);
-            if (!o.b) { fprintf(stderr, "a_buf_new failed\n"); return 3; }
-            for (int i = 0; i <= e->a2; ++i) /* one more than fits: the last must be refused */
-            {
-                void *q = a_buf_push_back(o.b);
-                if (q) { put_elem((a_byte *)q, o.b->siz_, e->val); }
-            }
-        }
-        break;
-    default: fprintf(stderr, "unknown op %d\n", e->op); return 3;
-    }
-    rslot = slot_of(&o, p);
-    if (e->op == 20) { rval = e->val; } /* the pushed value is an argument of the composite create step */
-    /* pointer-returning insertions: the caller writes the element through the pointer */
-    if ((e->op == 1 || e->op == 2 || e->op == 3 || e->op == 15) && rslot >= 0)
-    {
-        put_elem((a_byte *)p, o_siz(&o), e->op == 15 ? e->a2 : e->a2);
-    }
-    /* removals and searches: read the element the pointer designates (it must still be intact) */
-    if ((e->op == 4 || e->op == 5 || e->op == 6 || e->op == 16) && rslot >= 0) { rval = get_elem((a_byte *)p, o_siz(&o)); }
-    /* growing setn exposes new slots: the harness fills them */
-    if (e->op == 9 && o_num(&o) > oldnum && o_num(&o) <= o_mem(&o))
-    {
-        for (a_size i = oldnum; i < o_num(&o); ++i) { put_elem(base(&o) + i * o_siz(&o), o_siz(&o), 0); }
-    }
+    f_begin(0, 0);
+#include "seq_ops.inc"
+    f_end();
+    last_reqs = f_req;
+#include "seq_post.inc"
     /* projection */
     int pnum = (int)(o_num(&o) > 1000000 ? 1000000 : o_num(&o)), pmem = (int)(o_mem(&o) > 1000000 ? 1000000 : o_mem(&o)), psiz = (int)o_siz(&o);
     int pseq[MAXL];
@@ -338,6 +351,12 @@ int main(int argc, char **argv)
         return 2;
     }
     __sanitizer_set_death_callback(on_death);
+    f_install();
+    if (argc > 6)
+    {
+        fault_out = fopen(argv[6], skip_until ? "a" : "w");
+        if (!fault_out) { perror(argv[6]); return 3; }
+    }
     if (argc > 5) { skip_until = atol(argv[5]); }
     FILE *fi = fopen(argv[2], "r");
     if (!fi) { perror(argv[2]); return 3; }
@@ -373,8 +392,20 @@ int main(int argc, char **argv)
         if (e.cas >= 2) { ++n_nontrivial; }
         int rc = run_edge(&e, fo[(n_edges / 1024) % nb]);
         if (rc) { return rc; }
+        if (fault_out && last_reqs > 0 && e.op != 20)
+        {
+            long R = last_reqs;
+            ++n_fault_edges;
+            for (long k = 1; k <= R; ++k)
+            {
+                if ((rc = fault_edge(&e, k, 0)) != 0) { return rc; }
+                if (k < R && (rc = fault_edge(&e, 0, k)) != 0) { return rc; } /* from(R) == single(R) */
+            }
+        }
     }
     for (int i = 0; i < nb; ++i) { fclose(fo[i]); }
+    if (fault_out) { fclose(fault_out); }
+    printf("FAULTS {\"edges\":%ld,\"runs\":%ld}\n", n_fault_edges, n_fault_runs);
     printf("SUMMARY {\"edges\":%ld,\"events\":%ld,\"mismatch\":%ld,\"drift\":%ld,\"nontrivial\":%ld,\"cases\":[", n_edges, n_events, n_mismatch, n_drift, n_nontrivial);
     for (int i = 0; i < 8; ++i) { printf(i ? ",%ld" : "%ld", case_cnt[i]); }
     printf("],\"ops\":[");
